@@ -66,8 +66,11 @@ def programs(tier):
             reqs["adjacent-high"] = {2: 254, 3: 255}
             reqs["dup"] = {2: 9, 4: 9}
         for rname, req in reqs.items():
-            for dyn in ((0, 2) if n <= 256 else (0,)):
-                for routine in ((False, True) if n <= 200 or tier == "thorough" else (False,)):
+            big = n > 129 and tier == "quick"           # programs with hundreds of variables are expensive to run: fewer variants in quick
+            if big and rname not in ("none", "scattered", "adjacent"):
+                continue
+            for dyn in ((0, 2) if n <= 256 and not big else (0,)):
+                for routine in ((False, True) if (n <= 200 and not big) or tier == "thorough" else (False,)):
                     if n + dyn + (1 if routine else 0) > 400:
                         continue
                     out.append(make(n, req, dyn, routine, "n%d-%s-dyn%d-%s" % (n, rname, dyn, "sub" if routine else "main")))
@@ -92,7 +95,7 @@ def main():
     progs = programs(tier)
     # (b) compile outcome vs the slot-limit model
     entries, raw = outcomes.collect(progs, settings)
-    verdicts, tres, errors = outcomes.judge(entries, "c10", chunks=4)
+    verdicts, tres, errors = outcomes.judge(entries, "c10", chunks=8, per_chunk=10)
     for r in tres:
         chk.add_tlc(r)
     for e in errors:
